@@ -1112,3 +1112,69 @@ def row_independent(ctx, py, rule="PY-ROW-INDEPENDENT", floor=8):
                                "`%s` reaches add_row with the value an earlier line left in it when this line's condition is false" % v)
     ctx.floor(rule, floor)
     return n
+
+
+def decode_every(ctx, py, rule="PY-DECODE-EVERY", floor=3):
+    ctx.rule(rule, "the site loops of TreeSequence.variants and genotype_matrix decode every site they visit: `<variant>.decode(<loop "
+                   "variable>)` is an unconditional statement of the loop body, and what the iteration yields / stores comes after "
+                   "it (a skipped decode leaves the previous site's genotypes, or the zero-initialised row, in place)")
+    m = py.mod("trees")
+    n = 0
+    for qn in ("TreeSequence.variants", "TreeSequence.genotype_matrix"):
+        fn = py.func("trees", qn)
+        k = 0
+        for lp in ast.walk(fn):
+            if not isinstance(lp, ast.For) or not isinstance(lp.target, ast.Name):
+                continue
+            dec = [c for c in ast.walk(lp) if isinstance(c, ast.Call) and isinstance(c.func, ast.Attribute) and c.func.attr == "decode"]
+            if not dec:
+                continue
+            n += 1
+            top = [s for s in lp.body if isinstance(s, ast.Expr) and s.value in dec]
+            arg_ok = bool(top) and len(top[0].value.args) == 1 and isinstance(top[0].value.args[0], ast.Name) and top[0].value.args[0].id == lp.target.id
+            first = bool(top) and all(lp.body.index(top[0]) <= lp.body.index(s) for s in lp.body
+                                      if any(isinstance(y, (ast.Yield, ast.Subscript)) for y in ast.walk(s)))
+            ok = bool(top) and arg_ok and first
+            ctx.ob(rule, "%s@%d" % (qn, k), ok, m.loc(dec[0]),
+                   "decode(%s) is the unconditional first step of the loop body" % lp.target.id if ok else
+                   "decode() is %s" % ("conditional: some sites are never decoded" if not top else
+                                       "not called with the loop variable" if not arg_ok else "preceded by the yield / store"))
+            k += 1
+    ctx.floor(rule, floor)
+    return n
+
+
+_NARROW = re.compile(r"^(np|numpy)\.(int32|int16|int8|uint32|uint16|uint8|float32|float16)$|^'(<|=)?(i4|i2|i1|u4|u2|u1|f4|f2)'$")
+_COORD = re.compile(r"position|\bleft\b|\bright\b|\btime\b|sequence_length|breakpoint|coordinate")
+
+
+def py_width(ctx, py, mods, only=None, rule="PY-WIDTH"):
+    ctx.rule(rule, "genome coordinates and times are never converted to a type narrower than 64 bits in this property's Python "
+                   "functions: no `dtype=` / `.astype()` of int32 / float32 (or smaller) is applied to an expression naming "
+                   "positions, left / right, times or the sequence length (tskit coordinates are float64; a VCF POS above 2**31 or "
+                   "a time below float32 resolution would silently change)")
+    n = 0
+    for mn in mods:
+        m = py.mod(mn)
+        for qn, fn in m.funcs.items():
+            if only is not None and not only(mn, qn):
+                continue
+            bad = None
+            for c in ast.walk(fn):
+                if not isinstance(c, ast.Call):
+                    continue
+                dt = None
+                for k in c.keywords:
+                    if k.arg == "dtype":
+                        dt = ast.unparse(k.value)
+                if isinstance(c.func, ast.Attribute) and c.func.attr == "astype" and c.args:
+                    dt = ast.unparse(c.args[0])
+                if dt and _NARROW.match(dt):
+                    data = " ".join(ast.unparse(a) for a in c.args) + " " + (ast.unparse(c.func.value) if isinstance(c.func, ast.Attribute) else "")
+                    if _COORD.search(data):
+                        bad = (c, dt)
+                        break
+            n += 1
+            ctx.ob(rule, "%s.%s" % (mn, qn), bad is None, m.loc(bad[0]) if bad else m.loc(fn),
+                   "no narrowing of coordinates" if bad is None else "`%s` narrows a coordinate / time to %s" % (ast.unparse(bad[0])[:80], bad[1]))
+    return n
